@@ -20,6 +20,13 @@ pub uninterp spec fn has_legal(p: GPos) -> bool;      // some move is legal in p
 pub uninterp spec fn turn_of(p: GPos) -> Color;
 pub uninterp spec fn key_of(p: GPos) -> ZKey;
 pub uninterp spec fn in_check_pos(p: GPos, c: Color) -> bool;
+// [C11] what the look-ahead game of prelude/minimax_spec.rs is built from
+pub uninterp spec fn moves_of(p: GPos) -> Seq<Ply>;     // what get_all_moves returns (legal unit: all_moves)
+pub uninterp spec fn caps_of(p: GPos) -> Seq<Ply>;      // get_filtered_moves(Ply::is_capture): its capture sub-list
+pub uninterp spec fn eval_of(p: GPos) -> int;           // SimpleEvaluator::evaluate (eval unit)
+pub uninterp spec fn halfmove_of(p: GPos) -> int;       // Board::get_halfmove_clock
+pub uninterp spec fn repeated(p: GPos) -> bool;         // Board::position_reached(own key)
+
 // range assumption: the u16 move clocks stay below 65535 along every line the search explores (make_move's range_ok)
 
 pub broadcast axiom fn axiom_prev_step(p: GPos, m: Ply)
@@ -47,6 +54,7 @@ impl Board {
         requires bwf(*self),
         ensures forall|i: int| 0 <= i < r@.len() ==> pseudo(self.pos@, #[trigger] r@[i]),
                 r@.len() <= 256,   // assumed: a position has at most 218 pseudo-legal moves
+                r@ == moves_of(self.pos@),   // [C11] the generated list is a function of the position (legal unit: all_moves)
     { unimplemented!() }
 
     /// quiescence's move list: the pseudo-legal captures
@@ -55,6 +63,7 @@ impl Board {
         requires bwf(*self),
         ensures forall|i: int| 0 <= i < r@.len() ==> pseudo(self.pos@, #[trigger] r@[i]),
                 r@.len() <= 256,
+                r@ == caps_of(self.pos@),    // [C11] likewise its capture sub-list
     { unimplemented!() }
 
     /// C01/C02: the legal moves; asking does not change the board
@@ -85,10 +94,10 @@ impl Board {
     { unimplemented!() }
 
     #[verifier::external_body]
-    pub fn get_halfmove_clock(&self) -> (r: u16) requires bwf(*self), { unimplemented!() }
+    pub fn get_halfmove_clock(&self) -> (r: u16) requires bwf(*self), ensures r as int == halfmove_of(self.pos@), { unimplemented!() }
 
     #[verifier::external_body]
-    pub fn position_reached(&self, position: ZKey) -> (r: bool) requires bwf(*self), { unimplemented!() }
+    pub fn position_reached(&self, position: ZKey) -> (r: bool) requires bwf(*self), ensures position == self.zkey ==> r == repeated(self.pos@), { unimplemented!() }
 
     #[verifier::external_body]
     pub fn is_in_check(&self, color: Color) -> (r: bool)
@@ -101,7 +110,8 @@ impl Board {
 /// `running: Arc<AtomicBool>` is modelled by a ghost "halted" bit.  A stop may arrive during any call, so every
 /// &mut self function may turn halted on; nothing in the search ever turns it off (start() is only called by
 /// Search::search before iter_deep).
-pub struct RunFlag { pub flag_down: Ghost<bool>, pub lim: Ghost<bool>, pub bestmoves: Ghost<int>, pub reported: Ghost<Seq<int>>, pub quiet: Ghost<bool> }
+/// last_best: the move named on the last `bestmove` line; cache_off: [C11] hypothesis "result caching neutralised": transposition-table probes find nothing
+pub struct RunFlag { pub flag_down: Ghost<bool>, pub lim: Ghost<bool>, pub bestmoves: Ghost<int>, pub reported: Ghost<Seq<int>>, pub quiet: Ghost<bool>, pub cache_off: Ghost<bool>, pub last_best: Ghost<Option<Ply>> }
 
 pub struct Instant { pub t: Ghost<int> }
 impl Clone for Instant { #[verifier::external_body] fn clone(&self) -> (r: Self) ensures r == *self { unimplemented!() } }
@@ -120,6 +130,7 @@ impl SimpleEvaluator {
     #[verifier::external_body]
     pub fn evaluate(&self, board: &mut Board) -> (r: Score)
         ensures *final(board) == *old(board),
+                r as int == eval_of(old(board).pos@),   // [C11] a function of the position (eval unit)
     { unimplemented!() }
 }
 
